@@ -155,8 +155,39 @@ func (s *State) addInst(t *Term) {
 	s.inst = append(s.inst, t)
 }
 
-// hyps: path condition plus all instantiations of quantified hypotheses at the known instantiation terms.
-func (s *State) hyps() []*Term {
+// hypsFor: like hyps, with the index terms of the goal's array reads as additional instantiation candidates
+// (the index set of the array property fragment): a hypothesis `forall k :: a[k] == 0` is then available at
+// every position the goal reads.
+func (s *State) hypsFor(goal *Term) []*Term {
+	if len(s.qh) == 0 {
+		return s.hyps()
+	}
+	extra := []*Term{}
+	seen := map[int]bool{}
+	for _, t := range s.inst {
+		seen[t.id] = true
+	}
+	subTerms([]*Term{goal}, func(t *Term) {
+		if t.Op == "select" && t.Args[1].IsInt() && !seen[t.Args[1].id] && len(extra) < 64 {
+			seen[t.Args[1].id] = true
+			extra = append(extra, t.Args[1])
+		}
+	})
+	if len(extra) == 0 {
+		return s.hyps()
+	}
+	saved := s.inst
+	s.inst = append(append([]*Term(nil), s.inst...), extra...)
+	out := s.hyps1(len(saved))
+	s.inst = saved
+	return out
+}
+
+func (s *State) hyps() []*Term { return s.hyps1(len(s.inst)) }
+
+// hyps1: path condition plus all instantiations of quantified hypotheses at the known instantiation terms;
+// two-binder hypotheses only range over the first n2 terms.
+func (s *State) hyps1(n2 int) []*Term {
 	out := append([]*Term(nil), s.pc...)
 	for _, q := range s.qh {
 		switch q.n {
@@ -165,8 +196,8 @@ func (s *State) hyps() []*Term {
 				out = append(out, q.inst([]*Term{t}))
 			}
 		case 2:
-			for _, t1 := range s.inst {
-				for _, t2 := range s.inst {
+			for _, t1 := range s.inst[:n2] {
+				for _, t2 := range s.inst[:n2] {
 					out = append(out, q.inst([]*Term{t1, t2}))
 				}
 			}
